@@ -23,9 +23,6 @@ pub proof fn lemma_pow2_100(d: nat) requires d <= 100 ensures 1 <= pow(2, d) <= 
 pub open spec fn erg_out(tx: Transaction) -> int { if spec_total_outputs(tx).contains_key(Denom::Erg) { spec_total_outputs(tx)[Denom::Erg].0 as int } else { 0 } }
 /// puzzle of a DoscMint: keyed hash of the header at the spent coin's creation height, keyed... over the coin's id
 pub open spec fn spec_puzzle(hdr: Header, id: CoinID) -> HashVal { hk(spec_header_hash(hdr).0@, ser_coinid(id)) }
-pub open spec fn history_ok<C: ContentAddrStore>(s: UnsealedState<C>) -> bool {
-    forall|h: BlockHeight| #[trigger] s.history@.contains_key(h) ==> h.0 < s.height.0 && s.history@[h].dosc_speed != 0
-}
 /// C18: what an accepted ERG-minting transaction has shown
 pub open spec fn doscmint_ok<C: ContentAddrStore>(s: UnsealedState<C>, rel: Map<CoinID, CoinDataHeight>, tx: Transaction, speed: u128) -> bool {
     &&& tx.inputs@.len() > 0 && rel.contains_key(tx.inputs@[0])
